@@ -4,7 +4,7 @@
 use std::{env, fs, thread};
 //#![feature(getpid)]
 //use std::process;
-use std::io::{BufRead, BufReader};
+use std::io::{BufRead, BufReader, Cursor, Read};
 use std::mem;
 use std::net::{TcpListener, TcpStream};
 #[cfg(unix)]
@@ -577,14 +577,26 @@ pub fn listen<S: ?Sized + AsRef<str>, H: crate::ConnectionHandler + Send + Sync 
             let (r, mut w) = stream.split().unwrap();
             let mut br = BufReader::new(r);
             let mut iface: Option<String> = None;
+            // bytes read ahead of an upgrade, still to be handed to the upgraded interface
+            let mut unread: Vec<u8> = Vec::new();
             loop {
-                match handler.handle(&mut br, &mut w, iface.clone()) {
-                    Ok((_, i)) => {
+                let fed = unread.len();
+                let res = {
+                    let mut rd = Cursor::new(mem::take(&mut unread)).chain(&mut br);
+                    handler.handle(&mut rd, &mut w, iface.clone())
+                };
+                match res {
+                    Ok((rest, i)) => {
                         iface = i;
-                        match br.fill_buf() {
-                            Err(_) => break,
-                            Ok([]) => break,
-                            _ => {}
+                        if iface.is_some() {
+                            unread = rest;
+                        }
+                        if unread.is_empty() || unread.len() == fed {
+                            match br.fill_buf() {
+                                Err(_) => break,
+                                Ok([]) => break,
+                                _ => {}
+                            }
                         }
                     }
                     Err(err) => {
